@@ -76,7 +76,7 @@ def snapshot(obj, rng=True, skip=(), _memo=None, _depth=0, _ordered=False):
     if hasattr(obj, "__dict__"):
         attrs = []
         for k in sorted(vars(obj)):
-            if k in skip:
+            if k in skip or k.startswith("_verif_"):      # notes the bindings keep on the object are not part of it
                 continue
             attrs.append((k, snapshot(vars(obj)[k], rng, skip, _memo, _depth + 1, _ordered=k.startswith("arm_to_"))))
         return ("obj", name) + tuple(attrs)
